@@ -176,5 +176,29 @@ pub proof fn lemma_tree_equals_direct(x8: u8, x16: u16, x32: u32, x64: u64, i8_:
         call_of(Value::Bool(b)) == Call::Bool(b), call_of(Value::Char(c)) == Call::Char(c),
 {}
 
+// ---- the decoding side: which AMQP constructor yields which variant of the value tree (value/de.rs) ----
+//@@ type file=serde_amqp/src/format_code.rs kind=enum name=EncodingCodes keeprepr clone
+//@@ end
+impl Copy for EncodingCodes {}
+//@@ type file=serde_amqp/src/value/de.rs kind=enum name=ValueType
+//@@ end
+/// AMQP 1.0 part 1, 1.6 (the primitive type table): the type each constructor octet denotes
+pub open spec fn type_of_ctor(c: u8) -> ValueType {
+    if c == 0x00 { ValueType::Described } else if c == 0x40 { ValueType::Null } else if c == 0x56 || c == 0x41 || c == 0x42 { ValueType::Bool }
+    else if c == 0x50 { ValueType::Ubyte } else if c == 0x60 { ValueType::Ushort } else if c == 0x70 || c == 0x52 || c == 0x43 { ValueType::Uint }
+    else if c == 0x80 || c == 0x53 || c == 0x44 { ValueType::Ulong } else if c == 0x51 { ValueType::Byte } else if c == 0x61 { ValueType::Short }
+    else if c == 0x71 || c == 0x54 { ValueType::Int } else if c == 0x81 || c == 0x55 { ValueType::Long } else if c == 0x72 { ValueType::Float }
+    else if c == 0x82 { ValueType::Double } else if c == 0x74 { ValueType::Decimal32 } else if c == 0x84 { ValueType::Decimal64 } else if c == 0x94 { ValueType::Decimal128 }
+    else if c == 0x73 { ValueType::Char } else if c == 0x83 { ValueType::Timestamp } else if c == 0x98 { ValueType::Uuid }
+    else if c == 0xa0 || c == 0xb0 { ValueType::Binary } else if c == 0xa1 || c == 0xb1 { ValueType::String } else if c == 0xa3 || c == 0xb3 { ValueType::Symbol }
+    else if c == 0x45 || c == 0xc0 || c == 0xd0 { ValueType::List } else if c == 0xc1 || c == 0xd1 { ValueType::Map } else { ValueType::Array }
+}
+impl ValueType {
+//@@ fn file=serde_amqp/src/value/de.rs impl=`impl From<EncodingCodes> for ValueType` name=from as=value_type_from
+//@@ spec
+    ensures r == type_of_ctor(code as u8),          // [C05.value.ctor-to-type] every constructor of the AMQP type system -- all width variants (uint0 / smalluint / uint, list0 / list8 / list32, ...) -- is decoded into the value-tree variant of ITS type [C03.value.ctor-to-type]
+//@@ end
+}
+
 } // verus!
 fn main() {}
